@@ -53,7 +53,7 @@ PROPS = {
              "(filler puts place the 16 MiB mark of pending writes inside the stamp command; trailing fillers keep the call running). TestC02Table: transactions as a client issues them, through table.ActiveTable.Txn over an in-memory raft stand-in (read path vs log, command building, result decoding), "
              "shapes the table layer could special-case over-represented (no predicates, puts only, single operation, prev_kv of a key written earlier in the same transaction, empty branches, read-only); non-trivial iff such a prev_kv occurred or both branches were taken. Distinct = sha256 of the case JSON.",
         assumptions=FSM_ASSUME + ["atomic-visibility readers run on real goroutines: the oracle is timing-free, only coverage depends on scheduling"],
-        technique="stateful property-based testing against a transaction model + metamorphic relations + concurrent readers",
+        technique="stateful property-based testing against a transaction model (state machine level and through the table layer) + metamorphic relations + concurrent readers, also inside oversized (> 16 MiB) apply calls",
         level_text="Randomised exploration: transaction semantics compared with an independent evaluator on thousands of histories; read-only txn path cross-checked "
                    "metamorphically; atomic visibility probed with concurrent readers. Crash atomicity is C04's job.",
         level_note="Trusted: internal/model transaction evaluator; scheduling of reader goroutines is not controlled.",
@@ -125,7 +125,7 @@ PROPS = {
              "whether every node ends up reporting the shard's actual (term, leader) after re-reading its own raft information is observed and labelled, not asserted (staleness is not a statement of C19). Non-trivial iff headers of >=2 terms were observed. Distinct = sha256 of case JSON.",
         assumptions=["updates come from a consistent Raft world (one leader per term, one membership per config-change index)",
                      "view accessed through the add-only verif hooks storage/cluster/export_verif.go and export_cluster_verif.go"],
-        technique="property-based testing of algebraic laws (commutativity, associativity, idempotence of merge) + monotonicity invariant over the delivery history",
+        technique="property-based testing of algebraic laws (commutativity, associativity, idempotence of merge) over every writer of the view + monotonicity invariant over the delivery history; concurrent deliveries; response headers of a real 3-node cluster",
         level_text="Randomised exploration of update multisets and delivery orders against a max-term/max-CCI model, 5*10^4 cases per quick run.",
         level_note="Trusted: the consistent-world generator reflects Raft's guarantees; dragonboat reports (term, leader) pairs consistently.",
     ),
@@ -142,7 +142,7 @@ PROPS = {
              "TestC13Raft: the same operation generator against kv.RaftStore on a real single-node NodeHost (proposal path, result-code to ErrVersionMismatch mapping, stale reads): Set/Delete succeed iff the CAS rule allows, a mismatch returns the current pair, "
              "new versions exceed all earlier ones, Get/Exists/GetAll == model (non-trivial iff a key saw both a rejected and an accepted Set).",
         assumptions=["values are valid UTF-8 (every caller JSON-encodes them)"],
-        technique="stateful property-based testing against a CAS-register-map model + replica differential + snapshot round trip",
+        technique="stateful property-based testing against a CAS-register-map model (path.Match as glob reference) + replica differential + snapshot round trip; the raft client on single-node and 3-node raft groups",
         level_text="Randomised exploration of update/lookup/snapshot histories on the real state machine of the metadata store.",
         level_note="Trusted: the model map; path helper semantics (List/ListDir) are compared with a fresh MapStore holding the model's pairs, not re-specified.",
     ),
@@ -158,7 +158,7 @@ PROPS = {
         assumptions=["the fake log reader implements dragonboat's ReadonlyLogReader contract (read from internal/logdb/logreader.go)",
                      "LogCompacted reaches the cache together with the compaction (the engine forwards the event asynchronously; the window in between is not modelled)",
                      "query end is always applied+1 and applied only grows (stated in the property)"],
-        technique="stateful model-based property testing + differential Simple vs Cached reader",
+        technique="stateful model-based property testing + differential Simple vs Cached reader; replicate calls with generated events between their messages (leader applies, log compaction, another follower's stream)",
         level_text="Randomised exploration of log/compaction/cache histories with exact comparison against a model log.",
         level_note="Trusted: the fake reader's fidelity to dragonboat; the real dragonboat reader is exercised in C05.",
     ),
@@ -177,7 +177,7 @@ PROPS = {
         assumptions=["fault model = the property's: file data durable up to the file's last sync, directory entries up to the directory's last sync (pebble vfs strict MemFS); torn single writes and media errors are outside it",
                      "an install (RecoverFromSnapshot) is not required to be durable by itself: until the next completed Sync either the pre-install or the installed prefix is accepted (dragonboat's contract)",
                      "pebble's background flush/compaction run on real goroutines, so operation numbers can shift slightly between executions; every number is still a legal crash point"],
-        technique="property-based generation of histories + exhaustive fault (crash-point) enumeration per history, model-based prefix oracle",
+        technique="property-based generation of histories + exhaustive fault (crash-point) enumeration per history under two crash models, plus a stalled-disk fault; model-based prefix oracle",
         level_text="Every file-system operation boundary of every generated history is used as a crash point (exhaustive per history), histories themselves are randomly explored.",
         level_note="Trusted: pebble's strict MemFS as the durability model; the model's prefix states.",
     ),
@@ -196,7 +196,7 @@ PROPS = {
              "first / a middle / the last key, delete and add keys and move both indices; same oracle (non-trivial always). Distinct = sha256(case JSON [+ crash point]). TestC08Cluster: a real 3-node regatta cluster whose nodes use the snapshot formats of the process shard (mixed and uniform), tables that snapshot every 10 entries and keep 2 log entries; a node is taken down, 25-60 generated writes (puts of 0 B - 600 KB, deletes, range deletes, non-idempotent transactions) follow, the node returns and can only catch up by a snapshot streamed by the raft library from a peer; a linearizable read on it == model, after the writes stopped every node's own copy == model and all applied indices agree; non-trivial iff a node caught up with fewer apply calls than entries it missed.",
         assumptions=FSM_ASSUME + ["dragonboat documents that Lookup may run concurrently with RecoverFromSnapshot",
                                   "while KNOWN_FINDINGS lists the read-across-install finding, racing readers are not executed (counted as excluded) because they panic or hang inside pebble in schedule-dependent ways"],
-        technique="property-based testing: snapshot round trip against a model, fault injection (stop signals, crash-point enumeration inside the install), deterministic and racing overlapping readers",
+        technique="property-based testing: snapshot round trip against a model, fault injection (stop signals, crash-point enumeration inside the install), deterministic overlapping readers; generated node-down / node-back histories on a real 3-node cluster with per-node snapshot formats (snapshots taken, shipped and installed by the raft library)",
         level_text="Randomised exploration of saver/receiver histories with exhaustive crash points inside each generated install.",
         level_note="Trusted: internal/model; crash model as in C04.",
     ),
@@ -216,7 +216,7 @@ PROPS = {
              "TestC07Cluster: 1-3 restores (a fifth of them from a stream that breaks half way) issued on drawn nodes of a real 3-node cluster while every node runs reconcile rounds (back to back, or every 30 ms); after each, on EVERY node (once it knows the new table record): linearizable read == captured content resp. the old content after a broken stream, "
              "declared leader index, a shard id above all earlier ones, writes still accepted; at the end every node's own copy == model. Distinct = sha256 of case JSON.",
         assumptions=["MaxInMemLogSize is at least twice the biggest record (dragonboat rejects larger proposals permanently)", "single-node leader and target engines, in-process, in-memory file systems, real gRPC over loopback"],
-        technique="round-trip property-based testing on real engines (generated content x configuration), model comparison",
+        technique="round-trip property-based testing on real engines (generated content x configuration x faults), model comparison; point-in-time oracle for table dumps taken under concurrent apply calls; restores into a real 3-node cluster",
         level_text="Randomised exploration of (content, configuration, source) triples on real engines with an exact content oracle.",
         level_note="Trusted: model map; engines are single-node.",
     ),
@@ -242,7 +242,7 @@ PROPS = {
              "TestC05Recreate: the leader table deleted and created again under the same name between polls and reconcile rounds (a recorded finding: the follower never notices; its two signatures are tolerated there and counted as known-finding hits, anything else is reported). "
              "TestC05Live: a started manager on a single follower node (see DESIGN 3b). Distinct = sha256 of case JSON.",
         assumptions=["proposal timeouts are not injected", "after an engine restart one reconcile round is run explicitly (production: 30 s timer)"],
-        technique="stateful property-based testing on two real engines with a harness-owned replication schedule, model of the leader's state per revision",
+        technique="stateful property-based testing on real engines with a harness-owned replication schedule (single-node follower and 3-node follower cluster with lease hand-over and a held-back node), started replication managers judged post hoc from samples, model of the leader's state per revision",
         level_text="Randomised exploration of leader histories x polling/compaction/restart schedules with an exact per-index content oracle.",
         level_note="Trusted: model; the worker loop body is re-stated in the verif hook (replication/export_verif.go Poll).",
     ),
@@ -259,7 +259,7 @@ PROPS = {
              "txn outcomes; each read equals the state after some prefix between 'all writes acknowledged before it started' (linearizable, read-only txn) / 0 (serializable) and 'all writes started before it ended'. Non-trivial iff a read overlapped a write.",
         assumptions=["the raft stand-in encodes dragonboat's documented semantics: SyncPropose returns the local replica's apply result, SyncRead = ReadIndex at call time, StaleRead = local applied state",
                      "TestC10Conc uses a single-node engine (no lagging replica there)"],
-        technique="stateful property-based testing with a harness-controlled replication schedule + history checking of concurrent executions",
+        technique="stateful property-based testing with a harness-controlled replica lag (in-memory raft stand-in) + history checking of concurrent executions on a real engine and on a real 3-node cluster with a held-back replica",
         level_text="Randomised exploration of client histories x replica lag; concurrent histories on a real engine checked by an order-based history invariant.",
         level_note="Trusted: internal/simraft semantics; internal/model.",
     ),
@@ -278,7 +278,7 @@ PROPS = {
         assumptions=["lease durations are +-1 hour so wall-clock time never decides an outcome", "clock skew between nodes is outside the statement",
                      "the gated store re-states kv.RaftStore's Set/Delete result decoding (version mismatch mapping) around the real LFSM",
                      "TestC15Worker depends on real time: its verdict is one-sided (a starved process can only turn a violation into 'inconclusive')"],
-        technique="schedule exploration (random + exhaustive enumeration for small bounds) with a harness-owned scheduler, ghost-state invariants",
+        technique="schedule exploration (random + exhaustive enumeration for small bounds) with a harness-owned scheduler over one store or over per-node replicas (stale reads, lag, snapshot installs), ghost-state invariants; real workers and a real 3-node cluster",
         level_text="Random schedules for 2-3 nodes x up to 4 calls, and complete enumeration of all interleavings for 2 nodes x up to 2 (quick) / 3 (thorough) calls.",
         level_note="Trusted: the gate scheduler (one runnable caller at a time); the real LFSM implements the CAS.",
     ),
@@ -302,7 +302,7 @@ PROPS = {
              "afterwards every node's lookup converges to what that order leaves (non-trivial iff >=2 calls raced on one name). TestC14Diff: diffTables on generated catalogue (ids incl. 0, <=10000, recover ids) x running-shard sets; "
              "oracle: start == catalogued minus running, stop == running minus catalogued, ids > 10000 only (non-trivial iff both sets non-empty). Distinct = sha256 of case JSON.",
         assumptions=["single-node engine for the sequential part; concurrency is explored on the gated store only", "table names with '/' or glob syntax are a listed known finding"],
-        technique="stateful model-based property testing on a real engine + schedule exploration on a gated store + pure-function property test of the reconcile diff",
+        technique="stateful model-based property testing on a real engine + schedule exploration on a gated store (single and per-node replicas) + concurrent catalogue changes on a real 3-node cluster and under running reconciliation + pure-function property test of the reconcile diff",
         level_text="Randomised exploration of catalogue histories against a catalogue model, racing catalogue changes under controlled schedules, and the diff function against its set definition.",
         level_note="Trusted: the catalogue model; gate scheduler.",
     ),
@@ -325,7 +325,7 @@ PROPS = {
              "TestC11Sweep: the same state machine and oracle with the queue's 1 s sweep of ended contexts in the middle (3-14 waiters in arbitrary order, 1..n/2 of them cancelled anywhere in the priority queue, wait for the sweep, more waiters, notifications walking up): "
              "nothing is asserted about when the sweep runs, it only perturbs the queue's state; 200 scenarios side by side per case (evaluations = scenarios; non-trivial iff >=1 cancelled and >=2 live waiters).",
         assumptions=["real time is unavoidable (the sweep interval is hard-coded): every time-based judgement is one-sided and generous, a slow machine can only turn a violation into 'inconclusive'"],
-        technique="property-based testing over timed event schedules with a history oracle; end-to-end read-your-writes on real engines",
+        technique="property-based testing over timed event schedules with a history oracle; untimed state-machine tests of the queue (alone and fed by a real table state machine); end-to-end read-your-writes on real engines",
         level_text="Randomised exploration of waiter/notification/cancellation schedules across >=4 sweeps; thousands of scenarios per quick run.",
         level_note="Trusted: wall-clock ordering of harness-side stamps within the stated margins.",
     ),
@@ -347,7 +347,7 @@ PROPS = {
              "(long name + tiny content, or several MiB of incompressible values) through the real Maintenance API with the stock backup client - same content, no other table. Thorough adds native fuzzing (FuzzC18: arbitrary bytes through the codec for every type).",
         assumptions=["in-process codec tests do not modify input buffers after decoding (aliasing the input is within the codec's contract as long as the server does not recycle receive buffers; that combination is what TestC18Wire exercises on the real server)",
                      "compressed readers are drained with a single read-to-EOF as gRPC does", "decoding arbitrary messages into a recycled pooled Command is not done by any regatta code path and is not asserted"],
-        technique="round-trip property-based testing over descriptor-driven generated messages, concurrent compressor round trips, framing round trip with generated chunk boundaries, native fuzzing",
+        technique="round-trip property-based testing over descriptor-driven generated messages, concurrent compressor round trips, framing round trip with generated chunk boundaries, end-to-end round trips through a real server process (concurrent writers, backup/restore), native fuzzing",
         level_text="Randomised exploration of message values (all types), payloads and chunkings with exact round-trip oracles.",
         level_note="Trusted: google.golang.org/protobuf as the reference decoder and proto.Equal as equality.",
     ),
